@@ -6,11 +6,55 @@ uses os.listdir in 3.12; os.walk/glob use os.scandir).  While a scan is active
 (`begin_scan`), listings of directories below the scratch root are served in the order
 the plan prescribes; everything else passes through untouched.
 """
+import builtins
+import errno
+import io
 import os
 import shutil
 
 _real_listdir = os.listdir
 _real_scandir = os.scandir
+_real_open = builtins.open
+
+# F15: one injected I/O error per armed call: the k-th directory listing or the k-th file opened for
+# reading below the scratch root fails with OSError (EIO / EACCES / EMFILE)
+_fault = {"kind": None, "at": 0, "count": 0, "fired": 0, "errno": errno.EIO}
+
+
+def arm_fault(kind, at, err="EIO"):
+    _fault.update(kind=kind, at=int(at), count=0, fired=0, errno=getattr(errno, err, errno.EIO))
+
+
+def disarm_fault():
+    """-> (fired, how many candidate operations were seen)"""
+    fired, count = _fault["fired"], _fault["count"]
+    _fault.update(kind=None, count=0, fired=0)
+    return fired, count
+
+
+def _maybe_fault(kind, path):
+    if _fault["kind"] != kind or _state["root"] is None:
+        return
+    try:
+        key = os.fspath(path)
+    except TypeError:
+        return
+    if isinstance(key, bytes):
+        return
+    key = os.path.abspath(key)
+    root = _state["root"]
+    if not (key == root or key.startswith(root + os.sep)):
+        return
+    _fault["count"] += 1
+    if _fault["count"] == _fault["at"]:
+        _fault["fired"] = 1
+        raise OSError(_fault["errno"], os.strerror(_fault["errno"]), key)
+
+
+def _open(file, mode="r", *args, **kwargs):
+    if _fault["kind"] == "open" and isinstance(mode, str) and not set(mode) & set("wax+"):
+        _maybe_fault("open", file)
+    return _real_open(file, mode, *args, **kwargs)
 
 _state = {
     "root": None,  # absolute scratch root of the current run (str) or None
@@ -59,6 +103,7 @@ def _plan_order(path, names):
 
 
 def _listdir(path="."):
+    _maybe_fault("listdir", path)
     names = _real_listdir(path)
     out = _plan_order(path, names)
     return names if out is None else out
@@ -86,6 +131,7 @@ class _OrderedScandir:
 
 
 def _scandir(path="."):
+    _maybe_fault("listdir", path)
     it = _real_scandir(path)
     if _state["order"] is None:
         return it
@@ -101,6 +147,8 @@ def _scandir(path="."):
 def install():
     os.listdir = _listdir
     os.scandir = _scandir
+    builtins.open = _open
+    io.open = _open
 
 
 def set_root(root):
